@@ -27,7 +27,8 @@ MANIFEST = {
     "text": ("Proof. For ANY two equally sized point sets (no rank assumption: collinear and planar included) and ANY factorisation satisfying the SVD "
              "specification, Lean proves: the returned matrix is orthogonal with determinant +1 (never improper), it maximises tr(QᵀAᵀB) and hence minimises "
              "the summed squared deviation / RMSD over ALL proper rotations (via tr Q >= -1 on SO(3), proved from the cofactor identity), and congruent "
-             "sets are superposed exactly. Tie: the captured numpy SVD factors satisfy the specification and reproduce the returned matrix through the model."),
+             "sets are superposed exactly. Tie: the captured numpy SVD factors satisfy the specification and reproduce the returned matrix through the model."
+             " The statement is scale free: the factors of A^T B are an SVD of the rescaled covariance and the same rotation is optimal for (tA, tB) for every t (kabsch_optimal_any_unit)."),
     "note": "Trusted: Lean kernel + Mathlib; numpy.linalg.svd meets SvdSpec (checked per call); exact reals for floats.",
     "technique": "Lean 4 proof (Mathlib matrices: orthogonal group, trace inequalities) + captured-SVD correspondence + random-rotation oracle",
 }
